@@ -1,9 +1,9 @@
-(* C01/C03: the stacked (source-weighted) ratio is the a_k-weighted mean of the
+(* C03: the stacked (source-weighted) ratio is the a_k-weighted mean of the
    per-source ratios, GIVEN that the (source, event) pair table lists every
    pair at most once (the C05 invariant).  Without it numpy's `+=` with a
    repeated index keeps only the last write: see stacked_dup_refuted. *)
-From Coq Require Import Reals ZArith List Bool Lra Lia Arith.
-From Sky Require Import Num NumR G_llh M_Llh S_Llh P_Llh P_LlhValue.
+From Coq Require Import Reals ZArith List Bool Lra Lia Arith Permutation.
+From Sky Require Import Num NumR G_weights M_Weights S_Llh P_WeightsBase.
 Import ListNotations.
 Open Scope R_scope.
 
@@ -135,11 +135,237 @@ Section S.
     set (R1 := fold_left (sw_source_step Nm a_k vals) (seq 0 (length a_k)) (repeat (nzero Nm) n_sel)).
     assert (HL : length R1 = n_sel).
     { unfold R1. rewrite sw_fold_length. apply repeat_length. }
-    rewrite (nth_map_lt (fun r => k_sw_norm Nm r (nsum Nm a_k)) R1 e 0 0)
+    rewrite (nth_map_lt (fun r => w_sw_norm Nm r (nsum Nm a_k)) R1 e 0 0)
       by (rewrite HL; exact He).
     rewrite K_sw_norm, nsum_R. f_equal.
     unfold R1. rewrite sw_fold_nth by (try exact Hnd; rewrite repeat_length; exact He).
     rewrite nth_repeat. cbn [nzero RNum]. lra.
+  Qed.
+
+  (* ---- consequences of the weighted-mean form *)
+  Lemma map_nth_seq0 (l : list R) : map (fun k => nth k l 0) (seq 0 (length l)) = l.
+  Proof.
+    induction l as [|x l IH]; [reflexivity|].
+    cbn [length seq map nth]. f_equal. rewrite <- seq_shift, map_map. exact IH.
+  Qed.
+
+  Lemma weighted_between (l w : nat -> R) (m M : R) (ks : list nat) :
+    (forall k, In k ks -> 0 <= w k /\ m <= l k <= M) ->
+    m * Rsum (map w ks) <= Rsum (map (fun k => l k * w k) ks) <= M * Rsum (map w ks).
+  Proof.
+    unfold Rsum. induction ks as [|k ks IH]; intros H; cbn [map fold_right]; [lra|].
+    destruct (H k (or_introl eq_refl)) as (Hw & Hm & HM).
+    assert (IH' := IH (fun k' Hk' => H k' (or_intror Hk'))). nra.
+  Qed.
+
+  (* the stacked ratio lies between the smallest and the largest per-source ratio *)
+  Theorem stacked_ratio_between a_k n_sel vals e (m M : R) :
+    NoDup (map pair_of vals) -> (e < n_sel)%nat ->
+    List.Forall (fun x => 0 <= x) a_k -> 0 < Rsum a_k ->
+    (forall k, (k < length a_k)%nat -> m <= lookup vals k e <= M) ->
+    m <= nth e (sw_ratio Nm a_k n_sel vals) 0 <= M.
+  Proof.
+    intros Hnd He Hnn Hpos Hb.
+    rewrite stacked_ratio_is_weighted_mean by assumption.
+    pose proof (weighted_between (fun k => lookup vals k e) (fun k => nth k a_k 0) m M
+                  (seq 0 (length a_k))) as W.
+    rewrite map_nth_seq0 in W.
+    assert (Hk : forall k, In k (seq 0 (length a_k)) ->
+                 0 <= nth k a_k 0 /\ m <= lookup vals k e <= M).
+    { intros k Hin. apply in_seq in Hin. split; [|apply Hb; lia].
+      rewrite List.Forall_forall in Hnn. apply Hnn. apply nth_In. lia. }
+    specialize (W Hk). destruct W as [W1 W2].
+    split.
+    - apply (Rmult_le_reg_r (Rsum a_k)); [exact Hpos|].
+      unfold Rdiv. rewrite Rmult_assoc, Rinv_l, Rmult_1_r by lra. exact W1.
+    - apply (Rmult_le_reg_r (Rsum a_k)); [exact Hpos|].
+      unfold Rdiv. rewrite Rmult_assoc, Rinv_l, Rmult_1_r by lra. exact W2.
+  Qed.
+
+  (* ---- the order of the value array (rows of the pair table) is irrelevant *)
+  Lemma lookup_in vals v :
+    NoDup (map pair_of vals) -> In v vals -> lookup vals (src_of v) (evt_of v) = snd v.
+  Proof.
+    unfold lookup. induction vals as [|u vals IH]; intros Hnd Hin; [destruct Hin|].
+    cbn [map] in Hnd. apply NoDup_cons_iff in Hnd as [Hnotin Hnd].
+    cbn [find]. destruct Hin as [->|Hin].
+    - rewrite !Nat.eqb_refl. reflexivity.
+    - destruct (Nat.eqb (src_of u) (src_of v) && Nat.eqb (evt_of u) (evt_of v)) eqn:E.
+      + exfalso. apply andb_true_iff in E as [E1 E2]. apply Nat.eqb_eq in E1, E2.
+        apply Hnotin. apply in_map_iff. exists v. split; [|exact Hin].
+        unfold pair_of, src_of, evt_of in *. destruct u as [[? ?] ?], v as [[? ?] ?].
+        cbn in *. congruence.
+      + apply IH; assumption.
+  Qed.
+
+  Lemma lookup_absent vals k e :
+    (forall v, In v vals -> pair_of v <> (k, e)) -> lookup vals k e = 0.
+  Proof.
+    unfold lookup. intros H.
+    destruct (find _ vals) as [v|] eqn:F; [|reflexivity].
+    apply find_some in F as [Hin E]. exfalso. apply (H v Hin).
+    apply andb_true_iff in E as [E1 E2]. apply Nat.eqb_eq in E1, E2.
+    unfold pair_of, src_of, evt_of in *. destruct v as [[? ?] ?]. cbn in *. congruence.
+  Qed.
+
+  Lemma lookup_perm vals vals' k e :
+    NoDup (map pair_of vals) -> Permutation vals vals' -> lookup vals k e = lookup vals' k e.
+  Proof.
+    intros Hnd HP.
+    assert (Hnd' : NoDup (map pair_of vals')).
+    { eapply Permutation_NoDup; [|exact Hnd]. apply Permutation_map. exact HP. }
+    destruct (find (fun v => Nat.eqb (src_of v) k && Nat.eqb (evt_of v) e) vals) as [v|] eqn:F.
+    - apply find_some in F as [Hin E].
+      apply andb_true_iff in E as [E1 E2]. apply Nat.eqb_eq in E1, E2. subst k e.
+      rewrite (lookup_in vals v Hnd Hin).
+      rewrite (lookup_in vals' v Hnd' (Permutation_in _ HP Hin)). reflexivity.
+    - assert (A : forall v, In v vals -> pair_of v <> (k, e)).
+      { intros v Hin E. pose proof (find_none _ _ F v Hin) as N. cbn beta in N.
+        unfold pair_of, src_of, evt_of in *. destruct v as [[s i] r]. cbn in *.
+        inversion E; subst. rewrite !Nat.eqb_refl in N. discriminate. }
+      rewrite (lookup_absent vals k e A).
+      rewrite (lookup_absent vals' k e); [reflexivity|].
+      intros v Hin. apply A. apply (Permutation_in _ (Permutation_sym HP) Hin).
+  Qed.
+
+  Lemma sw_ratio_length a_k n_sel vals : length (sw_ratio Nm a_k n_sel vals) = n_sel.
+  Proof.
+    unfold sw_ratio. cbv zeta. rewrite map_length, sw_fold_length. apply repeat_length.
+  Qed.
+
+  Theorem stacked_ratio_value_order a_k n_sel vals vals' :
+    NoDup (map pair_of vals) -> Permutation vals vals' ->
+    sw_ratio Nm a_k n_sel vals = sw_ratio Nm a_k n_sel vals'.
+  Proof.
+    intros Hnd HP.
+    assert (Hnd' : NoDup (map pair_of vals')).
+    { eapply Permutation_NoDup; [|exact Hnd]. apply Permutation_map. exact HP. }
+    apply (nth_ext _ _ 0 0); [now rewrite !sw_ratio_length|].
+    intros e He. rewrite sw_ratio_length in He.
+    rewrite !stacked_ratio_is_weighted_mean by assumption.
+    f_equal. f_equal. apply map_ext. intros k. rewrite (lookup_perm vals vals' k e Hnd HP).
+    reflexivity.
+  Qed.
+
+  (* ---- a common factor on all a_k cancels (no assumption on the pair table) *)
+  Lemma nth_scale c (a : list R) k : nth k (map (Rmult c) a) 0 = c * nth k a 0.
+  Proof.
+    revert k. induction a as [|x a IH]; intros [|k]; cbn [map nth]; try lra. apply IH.
+  Qed.
+
+  Lemma Rsum_scale c (a : list R) : Rsum (map (Rmult c) a) = c * Rsum a.
+  Proof. unfold Rsum. induction a as [|x a IH]; cbn [map fold_right]; [lra|]. rewrite IH. lra. Qed.
+
+  Lemma fancy_add_scale c ak (old : list R) pairs :
+    fancy_add (fun o r => w_sw_term Nm o r (c * ak)) (map (Rmult c) old) pairs
+    = map (Rmult c) (fancy_add (fun o r => w_sw_term Nm o r ak) old pairs).
+  Proof.
+    unfold fancy_add. rewrite map_length, map_map.
+    generalize 0%nat as s. induction old as [|x old IH]; intros s; [reflexivity|].
+    cbn [length seq map combine fst snd]. f_equal; [|apply IH].
+    destruct (last_for s pairs) as [v|]; [|reflexivity].
+    rewrite !K_sw_term. lra.
+  Qed.
+
+  Lemma sw_fold_scale c a_k vals ks : forall Ri,
+    fold_left (sw_source_step Nm (map (Rmult c) a_k) vals) ks (map (Rmult c) Ri)
+    = map (Rmult c) (fold_left (sw_source_step Nm a_k vals) ks Ri).
+  Proof.
+    induction ks as [|k ks IH]; intros Ri; cbn [fold_left]; [reflexivity|].
+    rewrite <- IH. f_equal. unfold sw_source_step. cbv zeta.
+    cbn [nzero RNum]. rewrite nth_scale. apply fancy_add_scale.
+  Qed.
+
+  Theorem stacked_ratio_scale c a_k n_sel vals :
+    c <> 0 -> Rsum a_k <> 0 ->
+    sw_ratio Nm (map (Rmult c) a_k) n_sel vals = sw_ratio Nm a_k n_sel vals.
+  Proof.
+    intros Hc HA. unfold sw_ratio. cbv zeta. rewrite map_length.
+    replace (repeat (nzero Nm) n_sel) with (map (Rmult c) (repeat (nzero Nm) n_sel)) at 1.
+    2:{ cbn [nzero RNum]. induction n_sel as [|n IHn]; cbn [repeat map]; [reflexivity|].
+        rewrite IHn. f_equal. lra. }
+    rewrite sw_fold_scale, map_map, !nsum_R, Rsum_scale.
+    apply map_ext. intros r. rewrite !K_sw_norm. field. split; assumption.
+  Qed.
+
+  (* ---- permuting the sources consistently (weights and the labels of the pair table) *)
+  Definition relabel (p : list nat) (v : nat * nat * R) : nat * nat * R :=
+    (nth (src_of v) p (length p), evt_of v, snd v).
+
+  Lemma map_nth_seq_nat (p : list nat) d : map (fun j => nth j p d) (seq 0 (length p)) = p.
+  Proof.
+    induction p as [|x p IH]; [reflexivity|].
+    cbn [length seq map nth]. f_equal. rewrite <- seq_shift, map_map. exact IH.
+  Qed.
+
+  Lemma nth_eqb_inj (p : list nat) s j :
+    NoDup p -> (s < length p)%nat -> (j < length p)%nat ->
+    Nat.eqb (nth s p (length p)) (nth j p (length p)) = Nat.eqb s j.
+  Proof.
+    intros Hnd Hs Hj. destruct (Nat.eqb_spec s j) as [->|N]; [apply Nat.eqb_refl|].
+    apply Nat.eqb_neq. intros E. apply N.
+    apply (proj1 (NoDup_nth p (length p)) Hnd s j Hs Hj E).
+  Qed.
+
+  Lemma lookup_relabel p vals j e :
+    NoDup p -> List.Forall (fun v => (src_of v < length p)%nat) vals -> (j < length p)%nat ->
+    lookup (map (relabel p) vals) (nth j p (length p)) e = lookup vals j e.
+  Proof.
+    intros Hnd Hall Hj. unfold lookup.
+    induction Hall as [|u vals Hu _ IH]; [reflexivity|].
+    cbn [map find].
+    assert (E1 : src_of (relabel p u) = nth (src_of u) p (length p)) by reflexivity.
+    assert (E2 : evt_of (relabel p u) = evt_of u) by reflexivity.
+    assert (E3 : snd (relabel p u) = snd u) by reflexivity.
+    rewrite E1, E2, (nth_eqb_inj p (src_of u) j Hnd Hu Hj).
+    destruct (Nat.eqb (src_of u) j && Nat.eqb (evt_of u) e); [exact E3|exact IH].
+  Qed.
+
+  Lemma relabel_NoDup p vals :
+    NoDup p -> List.Forall (fun v => (src_of v < length p)%nat) vals ->
+    NoDup (map pair_of vals) -> NoDup (map pair_of (map (relabel p) vals)).
+  Proof.
+    intros Hp Hall. induction Hall as [|u vals Hu Hall IH]; intros Hnd; [constructor|].
+    cbn [map] in *. apply NoDup_cons_iff in Hnd as [Hnotin Hnd].
+    apply NoDup_cons_iff. split; [|apply IH; exact Hnd].
+    intros Hin. apply Hnotin. rewrite map_map in Hin. apply in_map_iff in Hin as (v & E & Hv).
+    apply in_map_iff. exists v. split; [|exact Hv].
+    rewrite List.Forall_forall in Hall. specialize (Hall v Hv).
+    unfold pair_of, relabel, src_of, evt_of in *. destruct u as [[su eu] ru], v as [[sv ev] rv].
+    cbn [fst snd] in *. inversion E as [[E1 E2]].
+    assert (sv = su).
+    { apply (proj1 (NoDup_nth p (length p)) Hp sv su Hall Hu E1). }
+    subst. reflexivity.
+  Qed.
+
+  Theorem stacked_ratio_perm_sources a_k n_sel vals p e :
+    Permutation p (seq 0 (length a_k)) ->
+    NoDup (map pair_of vals) ->
+    List.Forall (fun v => (src_of v < length a_k)%nat) vals -> (e < n_sel)%nat ->
+    nth e (sw_ratio Nm (map (fun i => nth i a_k 0) p) n_sel vals) 0
+    = nth e (sw_ratio Nm a_k n_sel (map (relabel p) vals)) 0.
+  Proof.
+    intros HP Hnd Hall He.
+    assert (HL : length p = length a_k).
+    { rewrite (Permutation_length HP). apply seq_length. }
+    assert (Hp : NoDup p).
+    { eapply Permutation_NoDup; [apply Permutation_sym; exact HP|apply seq_NoDup]. }
+    rewrite <- HL in Hall.
+    pose proof (relabel_NoDup p vals Hp Hall Hnd) as Hnd'.
+    rewrite !stacked_ratio_is_weighted_mean by assumption.
+    rewrite map_length.
+    set (g := fun i => lookup (map (relabel p) vals) i e * nth i a_k 0).
+    assert (Eden : Rsum (map (fun i => nth i a_k 0) p) = Rsum a_k).
+    { rewrite (Rsum_perm _ _ (Permutation_map (fun i => nth i a_k 0) HP)).
+      rewrite map_nth_seq0. reflexivity. }
+    rewrite Eden. f_equal.
+    transitivity (Rsum (map g p)).
+    - rewrite <- (map_nth_seq_nat p (length p)) at 2. rewrite map_map.
+      f_equal. apply map_ext_in. intros j Hj. apply in_seq in Hj. unfold g.
+      rewrite (lookup_relabel p vals j e Hp Hall) by lia. f_equal.
+      rewrite (nth_indep _ 0 (nth (length p) a_k 0)) by (rewrite map_length; lia).
+      rewrite (map_nth (fun i => nth i a_k 0) p (length p) j). reflexivity.
+    - rewrite <- HL. apply Rsum_perm. apply Permutation_map. rewrite HL. exact HP.
   Qed.
 
   (* what happens without the invariant: the same pair listed twice keeps only
